@@ -429,6 +429,12 @@ def blk(name, part, group, q, t, mode='rnd'):
 PLANS = {
     'C20': {
         'level': 'other', 'coq': 'Properties_C20',
+        'explanation': 'Partial by nature. Proved in Coq for every width and operand: each modelled operation is total and returns a well-formed encoding '
+                       '(Properties_C20.v, obligations/discharged below). Observed by instrumentation on the inputs run, not proved: absence of undefined '
+                       'behaviour, memory errors, non-termination (UBSan/ASan builds of the correspondence drivers with per-case attribution, 2 s watchdog), '
+                       'absence of bits outside the width in the stored object (byte-for-byte canonical re-encoding check), absence of data races and '
+                       'equality with sequential results (TSan build, 8-10 threads). evaluations = driver cases + program digests; distinct_nontrivial = '
+                       'distinct case lines',
         'rule': 'the correspondence drivers of C01..C19 rebuilt with AddressSanitizer + UndefinedBehaviorSanitizer: every encoding / operand pair of the small '
                 'posit, fast-posit, cfloat, fixpnt, integer and lns configurations (a quarter of the pairs in the quick tier, all in the thorough tier) and structured '
                 'samples of the large ones, through arithmetic, comparisons, ++/--, native conversions (all integer widths incl. the most negative values, NaNs, '
@@ -675,7 +681,7 @@ PLANS = {
                    [exh('cfloat_to_exh%d' % k, 'cfloat_s%d' % k, 'to') for k in range(4)] +
                    [rnd('cfloat_to_rnd%d' % k, 'cfloat_s%d' % k, 'to', 600, 10000, shards=4) for k in (10, 11)] +
                    [exh('fixpnt_to_exh', 'fixpnt_small', 'to'), rnd('fixpnt_to_rnd', 'fixpnt_large', 'to', 500, 8000, shards=16),
-                    exh('integer_to_exh', 'integer_small', 'to'), exh('areal_to_exh', 'areal_all', 'to'),
+                    exh('integer_to_exh', 'integer_small', 'to'), rnd('integer_to_rnd', 'integer_large', 'to', 500, 8000, shards=16), exh('areal_to_exh', 'areal_all', 'to'),
                     {'name': 'dd_qd_readback', 'driver': 'dd_all', 'what': 'double(dd), double(qd) on normalised operands',
                      'runs': {'quick': [dict(args=['--mode', 'readback', '--count', '1500'], shards=8)], 'thorough': [dict(args=['--mode', 'readback', '--count', '30000'], shards=8)]}}],
     },
